@@ -79,6 +79,96 @@ func (m c13MapV) Validate() error {
 
 type c13KeyMap map[c13LeafV]any
 
+// ---- anonymous (embedded) fields -------------------------------------------------------------
+// The walk visits embedded fields like any other exported field. When the enclosing struct has no
+// Validate of its own, Go promotes the embedded type's Validate: the walk then reports the same
+// failure twice, once at the parent's path and once at the field's path (modelled as it is).
+
+type C13EmbV struct {
+	Err int `mapstructure:"-"`
+	A   any `mapstructure:"a"`
+}
+
+func (e C13EmbV) Validate() error { return c13E(e.Err) }
+
+type C13EmbP struct {
+	Err int `mapstructure:"-"`
+	A   any `mapstructure:"a"`
+}
+
+func (e *C13EmbP) Validate() error { return c13E(e.Err) }
+
+type c13hiddenEmb struct { // unexported embedded type: the field is not exported, the walk skips it
+	Err int `mapstructure:"-"`
+}
+
+func (e c13hiddenEmb) Validate() error { return c13E(e.Err) }
+
+// enclosing structs WITH their own Validate (the embedded one is not the promoted one)
+type c13OwnV_EV struct {
+	C13EmbV `mapstructure:"emb"`
+	PErr    int `mapstructure:"-"`
+	B       any `mapstructure:"b"`
+}
+
+func (p c13OwnV_EV) Validate() error { return c13E(p.PErr) }
+
+type c13OwnP_EP struct {
+	C13EmbP `mapstructure:",squash"`
+	PErr    int `mapstructure:"-"`
+	B       any `mapstructure:"b"`
+}
+
+func (p *c13OwnP_EP) Validate() error { return c13E(p.PErr) }
+
+type c13OwnV_PtrEV struct {
+	*C13EmbV
+	PErr int `mapstructure:"-"`
+}
+
+func (p c13OwnV_PtrEV) Validate() error { return c13E(p.PErr) }
+
+type c13OwnP_PtrEP struct {
+	*C13EmbP `mapstructure:"embp"`
+	PErr     int `mapstructure:"-"`
+	c13hiddenEmb
+}
+
+func (p *c13OwnP_PtrEP) Validate() error { return c13E(p.PErr) }
+
+// enclosing structs WITHOUT their own Validate: promotion
+type c13PromEV struct {
+	C13EmbV `mapstructure:"emb"`
+	B       any `mapstructure:"b"`
+}
+
+type c13PromEP struct {
+	C13EmbP `mapstructure:",squash"`
+}
+
+type c13PromPtrEV struct {
+	*C13EmbV `mapstructure:"emb"`
+}
+
+// several levels
+type C13Mid struct {
+	C13EmbV `mapstructure:",squash"`
+	PErr    int `mapstructure:"-"`
+}
+
+func (m *C13Mid) Validate() error { return c13E(m.PErr) }
+
+type c13TopOwn struct {
+	C13Mid `mapstructure:"mid"`
+	TErr   int `mapstructure:"-"`
+}
+
+func (t c13TopOwn) Validate() error { return c13E(t.TErr) }
+
+type c13TopProm struct { // promotes (*C13Mid).Validate, which shadows C13EmbV's
+	C13Mid `mapstructure:"mid"`
+}
+
 type c13Gen struct {
 	rnd  *rand.Rand
 	next int
@@ -113,9 +203,12 @@ func (g *c13Gen) anyOf(depth int) any {
 }
 
 func (g *c13Gen) node(depth int) any {
-	k := g.rnd.IntN(12)
+	k := g.rnd.IntN(17)
 	if depth > 3 {
 		k = g.rnd.IntN(3)
+	}
+	if k >= 12 {
+		return g.embedded(depth)
 	}
 	switch k {
 	case 0:
@@ -243,6 +336,133 @@ func (g *c13Gen) node(depth int) any {
 			m[c13LeafV(ke)] = g.anyOf(depth + 1)
 		}
 		return m
+	}
+}
+
+func (g *c13Gen) embV(depth int, e int) C13EmbV {
+	fmt.Fprintf(&g.b, "T%s:2 f:%s:e F- f:%s:e ", c13ErrTok(e), vHex("-"), vHex("a"))
+	return C13EmbV{Err: e, A: g.anyOf(depth + 1)}
+}
+
+func (g *c13Gen) embP(depth int, e int) C13EmbP {
+	fmt.Fprintf(&g.b, "T%s:2 f:%s:e F- f:%s:e ", c13ErrTok(e), vHex("-"), vHex("a"))
+	return C13EmbP{Err: e, A: g.anyOf(depth + 1)}
+}
+
+// embedded generates one of the enclosing-struct shapes; the value is returned by value or behind a pointer.
+func (g *c13Gen) embedded(depth int) any {
+	ptr := g.rnd.IntN(2) == 0
+	if ptr {
+		g.b.WriteString("P ")
+	}
+	switch g.rnd.IntN(9) {
+	case 0:
+		pe, e := g.err(), g.err()
+		fmt.Fprintf(&g.b, "T%s:3 f:%s:e ", c13ErrTok(pe), vHex("emb"))
+		v := c13OwnV_EV{PErr: pe}
+		v.C13EmbV = g.embV(depth, e)
+		fmt.Fprintf(&g.b, "f:%s:e F- f:%s:e ", vHex("-"), vHex("b"))
+		v.B = g.anyOf(depth + 1)
+		if ptr {
+			return &v
+		}
+		return v
+	case 1:
+		pe, e := g.err(), g.err()
+		fmt.Fprintf(&g.b, "T%s:3 f:%s:e ", c13ErrTok(pe), vHex("c13embp"))
+		v := c13OwnP_EP{PErr: pe}
+		v.C13EmbP = g.embP(depth, e)
+		fmt.Fprintf(&g.b, "f:%s:e F- f:%s:e ", vHex("-"), vHex("b"))
+		v.B = g.anyOf(depth + 1)
+		if ptr {
+			return &v
+		}
+		return v
+	case 2:
+		pe := g.err()
+		fmt.Fprintf(&g.b, "T%s:2 f:%s:e ", c13ErrTok(pe), vHex("c13embv"))
+		v := c13OwnV_PtrEV{PErr: pe}
+		if g.rnd.IntN(4) == 0 {
+			g.b.WriteString("Z ")
+		} else {
+			g.b.WriteString("P ")
+			ev := g.embV(depth, g.err())
+			v.C13EmbV = &ev
+		}
+		fmt.Fprintf(&g.b, "f:%s:e F- ", vHex("-"))
+		if ptr {
+			return &v
+		}
+		return v
+	case 3:
+		pe := g.err()
+		fmt.Fprintf(&g.b, "T%s:3 f:%s:e ", c13ErrTok(pe), vHex("embp"))
+		v := c13OwnP_PtrEP{PErr: pe}
+		if g.rnd.IntN(4) == 0 {
+			g.b.WriteString("Z ")
+		} else {
+			g.b.WriteString("P ")
+			ev := g.embP(depth, g.err())
+			v.C13EmbP = &ev
+		}
+		he := g.err()
+		v.c13hiddenEmb = c13hiddenEmb{Err: he}
+		fmt.Fprintf(&g.b, "f:%s:e F- f:%s:u T%s:1 f:%s:e F- ", vHex("-"), vHex("c13hiddenemb"), c13ErrTok(he), vHex("-"))
+		if ptr {
+			return &v
+		}
+		return v
+	case 4: // promoted value-receiver Validate: reported at the parent and at the field
+		e := g.err()
+		fmt.Fprintf(&g.b, "T%s:2 f:%s:e ", c13ErrTok(e), vHex("emb"))
+		v := c13PromEV{}
+		v.C13EmbV = g.embV(depth, e)
+		fmt.Fprintf(&g.b, "f:%s:e ", vHex("b"))
+		v.B = g.anyOf(depth + 1)
+		if ptr {
+			return &v
+		}
+		return v
+	case 5: // promoted pointer-receiver Validate (only *c13PromEP has it; the walk takes the address or copies)
+		e := g.err()
+		fmt.Fprintf(&g.b, "T%s:1 f:%s:e ", c13ErrTok(e), vHex("c13embp"))
+		v := c13PromEP{}
+		v.C13EmbP = g.embP(depth, e)
+		if ptr {
+			return &v
+		}
+		return v
+	case 6: // promoted through an embedded pointer (never nil here: the promoted call would dereference it)
+		e := g.err()
+		fmt.Fprintf(&g.b, "T%s:1 f:%s:e P ", c13ErrTok(e), vHex("emb"))
+		ev := g.embV(depth, e)
+		v := c13PromPtrEV{&ev}
+		if ptr {
+			return &v
+		}
+		return v
+	case 7: // three levels, every level with its own Validate
+		te, me, e := g.err(), g.err(), g.err()
+		fmt.Fprintf(&g.b, "T%s:2 f:%s:e T%s:2 f:%s:e ", c13ErrTok(te), vHex("mid"), c13ErrTok(me), vHex("c13embv"))
+		v := c13TopOwn{TErr: te}
+		v.C13Mid.PErr = me
+		v.C13Mid.C13EmbV = g.embV(depth, e)
+		fmt.Fprintf(&g.b, "f:%s:e F- f:%s:e F- ", vHex("-"), vHex("-"))
+		if ptr {
+			return &v
+		}
+		return v
+	default: // the top promotes Mid's Validate (which shadows the innermost one)
+		me, e := g.err(), g.err()
+		fmt.Fprintf(&g.b, "T%s:1 f:%s:e T%s:2 f:%s:e ", c13ErrTok(me), vHex("mid"), c13ErrTok(me), vHex("c13embv"))
+		v := c13TopProm{}
+		v.C13Mid.PErr = me
+		v.C13Mid.C13EmbV = g.embV(depth, e)
+		fmt.Fprintf(&g.b, "f:%s:e F- ", vHex("-"))
+		if ptr {
+			return &v
+		}
+		return v
 	}
 }
 
